@@ -170,6 +170,98 @@ def vfeatures(attrs, nlri, wdl, variants):
     return f
 
 
+# ---- BGP-LS attribute (type 29) TLVs of RFC 7752 section 3.3 (and RFC 5307 1.2 for the protection type): body generators and the
+# value each body encodes.  'value' None: only "decodes without an error, one entry per TLV" is judged (opaque / flag fields whose
+# printed form is the decoder's own choice).
+LS_PROTECTION = {1: 'Extra Traffic', 2: 'Unprotected', 4: 'Shared', 8: 'Dedicated 1:1', 16: 'Dedicated 1+1', 32: 'Enhanced'}
+
+
+def _f32(x):
+    return struct.unpack('!f', struct.pack('!f', x))[0]
+
+
+def ls_tlv(rng, t):
+    """(body, encoded value or None) of one well-formed attribute TLV of type t"""
+    if t in (1028, 1030):
+        a = gen.ipv4(rng)
+        return refenc.ip_bytes(a), a
+    if t in (1029, 1031):
+        a = gen.ipv6(rng, rng.choice(['doc', 'll', 'small', 'rand']))
+        return refenc.ip_bytes(a), a
+    if t == 1156:
+        a = gen.ipv4(rng) if rng.random() < 0.5 else gen.ipv6(rng, rng.choice(['doc', 'll', 'small']))
+        return refenc.ip_bytes(a), a
+    if t in (1026, 1098):
+        n = rng.choice([1, 2, 7, 32, 45, 46, 64, 255])
+        name = ''.join(rng.choice('abcdefghijklmnopqrstuvwxyzABCXYZ0123456789-_./') for _ in range(n))
+        return name.encode('ascii'), name
+    if t in (1088, 1092, 1155):
+        v = rng.choice(gen.U32)
+        return struct.pack('!I', v), v
+    if t in (1089, 1090):
+        v = _f32(rng.choice([0.0, 1.0, 1.25e8, 1e9, 1.25e10, 3.4e38, rng.random() * 1e9]))
+        return struct.pack('!f', v), v
+    if t == 1091:
+        vs = [_f32(rng.choice([0.0, 1.25e8, 1e9, rng.random() * 1e9])) for _ in range(8)]
+        return b''.join(struct.pack('!f', v) for v in vs), vs
+    if t == 1093:
+        b = rng.choice(sorted(LS_PROTECTION))
+        return bytes([b, 0]), LS_PROTECTION[b]
+    if t == 1095:
+        n = rng.choice([1, 2, 3])
+        v = rng.choice([0, 1, 10, 63]) if n == 1 else rng.choice([0, 10, 255, 256, (1 << (8 * n)) - 1])
+        return v.to_bytes(n, 'big'), v
+    if t in (1096, 1153):
+        vs = [rng.choice(gen.U32) for _ in range(rng.choice([1, 2, 5]))]
+        return b''.join(struct.pack('!I', v) for v in vs), vs
+    if t == 1154:
+        vs = [rng.choice([0, 1, (1 << 63), (1 << 64) - 1]) for _ in range(rng.choice([1, 2, 3]))]
+        return b''.join(struct.pack('!Q', v) for v in vs), vs
+    if t == 1027:
+        b = bytes([0x49] + [rng.getrandbits(8) for _ in range(rng.choice([0, 2, 6, 12]))])
+        return b, b.hex()
+    if t == 1024:
+        b = rng.choice([0, 0x80, 0x40, 0x20, 0x10, 0x08, 0x04, 0xfc])
+        return bytes([b]), {n: (b >> (7 - i)) & 1 for i, n in enumerate('OTEBRV')}
+    if t == 1094:
+        b = rng.choice([0, 0x80, 0x40, 0xc0])
+        return bytes([b]), {'L': b >> 7, 'R': (b >> 6) & 1}
+    if t == 1152:
+        b = rng.choice([0, 0x80, 0x40, 0x20, 0x10, 0xf0])
+        return bytes([b]), {n: (b >> (7 - i)) & 1 for i, n in enumerate('DNLP')}
+    if t in (1025, 1097, 1157):
+        return bytes(rng.getrandbits(8) for _ in range(rng.choice([0, 1, 9, 40]))), None
+    raise KeyError(t)
+
+
+LS_TYPES = [1024, 1025, 1026, 1027, 1028, 1029, 1030, 1031, 1088, 1089, 1090, 1091, 1092, 1093, 1094, 1095, 1096, 1097, 1098,
+            1152, 1153, 1154, 1155, 1156, 1157]
+
+
+def ls_update(rng, tlvs):
+    """An UPDATE announcing one BGP-LS node NLRI (RFC 7752 3.2) with the given attribute TLVs in attribute 29"""
+    def tlv(t, b):
+        return struct.pack('!HH', t, len(b)) + b
+    node = tlv(256, tlv(512, struct.pack('!I', rng.choice([65001, 4200000000]))) + tlv(513, struct.pack('!I', rng.choice([0, 1]))) +
+               tlv(515, bytes(rng.getrandbits(8) for _ in range(6))))
+    proto = rng.choice([2, 2, 1, 3])
+    nlri = struct.pack('!HH', 1, len(node) + 9) + bytes([proto]) + struct.pack('!Q', rng.choice([0, 1])) + node
+    mp = struct.pack('!HBB', 16388, 71, 4) + refenc.ip_bytes('10.0.0.1') + b'\x00' + nlri
+    ls = b''.join(tlv(t, b) for t, b in tlvs)
+    first = [refenc.attr(1, b'\x00'), refenc.attr(2, b''), refenc.attr(5, struct.pack('!I', 100))]
+    tail = [refenc.attr(14, mp), refenc.attr(29, ls)]
+    at = b''.join(first + tail)
+    return struct.pack('!H', 0) + struct.pack('!H', len(at)) + at
+
+
+def _ls_alone_fails(Update, rng, t, b):
+    try:
+        r = Update.parse(None, ls_update(rng, [(t, b)]), True)
+        return bool(r['sub_error']) or not (r['attr'] or {}).get(29)
+    except Exception:
+        return True
+
+
 def run_shard(sh):
     res = dict(evaluations=0, counters={}, maxima={}, sets={}, distinct=[], samples=[], violations=[])
     V = {}
@@ -293,6 +385,37 @@ def run_shard(sh):
                 bad('reference-decode-differs', feats, 'flowspec rule of %d octets (with its length field): encoded %s decoded %s (sub_error %s)' % (
                     rl, json.dumps(want_attr.get(str(code)))[:200], json.dumps(got_attr.get(str(code)))[:200], r['sub_error']), rep)
     vcount['flowspec_long_rules'] = nfs
+    # ------------------------------------------------------------ BGP-LS attribute TLVs (RFC 7752 3.3): every standard node / link /
+    # prefix attribute TLV alone, and 2..6 of them in one attribute
+    nls = 0
+    ls_cases = [[t] for t in LS_TYPES for _ in range(6)] + [[rng.choice(LS_TYPES) for _ in range(rng.randint(2, 6))] for _ in range(sh['n'] // 200)]
+    for types in ls_cases if sh['part'] % 2 == 0 else []:
+        made = [(t,) + ls_tlv(rng, t) for t in types]
+        body = ls_update(rng, [(t, b) for t, b, _ in made])
+        nls += 1
+        res['evaluations'] += 1
+        rep = dict(body=body.hex(), asn4=True)
+        feats = ['variant:bgp-ls-attribute'] + (['tlv:%d' % types[0]] if len(types) == 1 else ['several-tlvs'])
+        try:
+            r = Update.parse(None, body, True)
+        except Exception as e:
+            bad('reference-decode-raised', feats, 'Update.parse raised %r on a BGP-LS attribute with TLVs %s' % (e, types), rep)
+            continue
+        got = (r['attr'] or {}).get(29)
+        if r['sub_error'] or not isinstance(got, list) or len(got) != len(made):
+            broken = [t for t, b, _ in made if _ls_alone_fails(Update, rng, t, b)]
+            bad('reference-decode-error', ['variant:bgp-ls-attribute'] + ['tlv:%d' % t for t in sorted(set(broken))[:2]],
+                'sub_error %r, attribute 29 = %s on a well-formed BGP-LS attribute with TLVs %s' % (
+                    r['sub_error'], json.dumps(gen.norm(got))[:200], [(t, b.hex()[:24]) for t, b, _ in made]), rep)
+            continue
+        for (t, b, want), ent in zip(made, got):
+            if want is None:
+                continue
+            gv = ent.get('value') if isinstance(ent, dict) else None
+            if gen.norm(gv) != gen.norm(want):
+                bad('reference-decode-differs', ['variant:bgp-ls-attribute', 'tlv:%d' % t], 'BGP-LS attribute TLV %d with body %s encodes %s, decoded as %s' % (
+                    t, b.hex()[:60], json.dumps(gen.norm(want))[:120], json.dumps(gen.norm(ent))[:160]), rep)
+    vcount['bgp_ls_attribute'] = nls
     # ------------------------------------------------------------ End-of-RIB markers (RFC 4724): MP_UNREACH_NLRI with a family and no route
     neor = 0
     for afs in ([2, 1], [1, 4], [2, 4], [1, 128], [2, 128], [25, 70], [1, 133], [1, 1]) if sh['part'] < 4 else []:
